@@ -91,6 +91,24 @@ def run(ctx):
                     bad = bad or "SUCCESS with counter value %d" % v
                 if rc == 0 and v > 0 and reach(f, [r], a_ok, start=c.node):
                     bad = bad or "ERROR after a successful CAS"
+        # a failed CAS refreshes its `expected` operand: the next attempt must be preceded by a fresh `> 0` test of it
+        def positive_test(b, i):
+            ec = f.edge_cond(b, i)
+            if ec is None:
+                return False
+            leaf, pol = ec
+            if not any(isld(m) for m in leaf.walk()):
+                return False
+            try:
+                from rules import truth_table
+                tt = truth_table(f, leaf, pol, [isld], [range(-2, 4)])
+            except Unevaluable:
+                return False
+            return bool(tt) and all(v[0] > 0 for v in tt)
+        w = f.find_path(c.node, lambda n: n is c.node, edge_ok=lambda b, i: not positive_test(b, i))
+        if w is not None:
+            bad = bad or ("after a failed CAS (which refreshes the expected value) the CAS is retried without re-testing that the value is still > 0: "
+                          "it can move the counter from 0 to -1 and report success")
         if f.name in stale.may_switch(P):
             bad = bad or "trywait can reach a context switch"
         if not order_ge(c.order or "relaxed", "acquire") and not order_ge(c.order or "relaxed", "release"):
@@ -145,6 +163,21 @@ def run(ctx):
             ar = f.args(wk)
             if not waiters_of(f, ar[1]) or ar[2].cv != 0:
                 bad = bad or "wake arguments `%s`" % wk.text
+        def nonneg_test(b, i):
+            ec = f.edge_cond(b, i)
+            if ec is None:
+                return False
+            leaf, pol = ec
+            if not any(isld(m) for m in leaf.walk()):
+                return False
+            try:
+                from rules import truth_table
+                tt = truth_table(f, leaf, pol, [isld], [range(-3, 3)])
+            except Unevaluable:
+                return False
+            return bool(tt) and all(v[0] >= 0 for v in tt)
+        if f.find_path(c.node, lambda n: n is c.node, edge_ok=lambda b, i: not nonneg_test(b, i)) is not None:
+            bad = bad or "after a failed CAS post retries without re-testing that the refreshed value is still >= 0 (it would bump a negative counter past an announced waiter)"
         # no exit that neither woke+incremented nor won the CAS
         atom = atom_from([(lambda n: n is c.node, 0), (iswk, 0)])
         if reach(f, ["exit"], atom):
